@@ -40,6 +40,7 @@ func propC15(w *World, r *Report) {
 	RunRecordEffect(w, r)
 	RunLigPrefix(w, r)
 	RunLigCondition(w, r)
+	RunKernPairFirst(w, r)
 }
 
 func checkFindLookups(w *World, r *Report) {
@@ -897,4 +898,90 @@ func sliceThroughCells(fn *ssa.Function, v ssa.Value) map[ssa.Value]bool {
 		}
 	}
 	return res
+}
+
+// RunKernPairFirst: "a font that carries only a legacy kern table kerns every
+// pair by exactly the table's value" includes overlapping pairs: in "AVA"
+// both (A,V) and (V,A) apply, so after the first pair the scan has to go on
+// at the V.  Gpos2_1.apply decides that by one field of the pair record (nil:
+// continue at the second glyph, non-nil: behind it).  The rule finds that
+// field in apply — the field whose nil test separates two returns — and
+// requires that the records sfnt.Read builds from a kern table leave it unset.
+func RunKernPairFirst(w *World, r *Report) {
+	r.Rule("kernpairfirst: the field of gtab.PairAdjust whose nil test decides in Gpos2_1.apply whether the next pair may start at the second glyph is left nil in every pair record that sfnt.Read builds from a kern table (an empty value record there would consume the second glyph and suppress the overlapping pair)")
+	ap := w.Func("(opentype/gtab.Gpos2_1).apply")
+	rd := w.Func("sfnt.Read")
+	key := r.MkKey("kernpairfirst", "sfnt.Read", "pair records built from the kern table")
+	if ap == nil || rd == nil {
+		r.Fatal("kernpairfirst: Gpos2_1.apply or sfnt.Read does not resolve")
+		return
+	}
+	// the deciding field: If on (load adj.F) == nil / != nil where both arms return
+	field := -1
+	var recT types.Type
+	for _, b := range ap.Blocks {
+		ifi, ok := b.Instrs[len(b.Instrs)-1].(*ssa.If)
+		if !ok {
+			continue
+		}
+		bo, ok := ifi.Cond.(*ssa.BinOp)
+		if !ok || (bo.Op != token.EQL && bo.Op != token.NEQ) {
+			continue
+		}
+		var ld *ssa.UnOp
+		if isNilConst(bo.Y) {
+			ld, _ = bo.X.(*ssa.UnOp)
+		} else if isNilConst(bo.X) {
+			ld, _ = bo.Y.(*ssa.UnOp)
+		}
+		if ld == nil {
+			continue
+		}
+		fa, ok := ld.X.(*ssa.FieldAddr)
+		if !ok {
+			continue
+		}
+		// one arm returns at once
+		direct := false
+		for _, s := range b.Succs {
+			if _, isRet := s.Instrs[len(s.Instrs)-1].(*ssa.Return); isRet && len(s.Instrs) <= 2 {
+				direct = true
+			}
+		}
+		if direct {
+			field = fa.Field
+			recT = fa.X.Type().Underlying().(*types.Pointer).Elem()
+		}
+	}
+	if field < 0 {
+		r.Fail("kernpairfirst", key, w.Pos(ap.Pos()), "no nil test of a field of the pair record that separates two returns was found in Gpos2_1.apply: the rule cannot tell how the next position is chosen", nil)
+		return
+	}
+	n := 0
+	var bad token.Pos
+	for _, b := range rd.Blocks {
+		for _, in := range b.Instrs {
+			st, ok := in.(*ssa.Store)
+			if !ok {
+				continue
+			}
+			fa, ok := st.Addr.(*ssa.FieldAddr)
+			if !ok || !types.Identical(fa.X.Type().Underlying().(*types.Pointer).Elem(), recT) {
+				continue
+			}
+			n++
+			if fa.Field == field && !isNilConst(st.Val) {
+				bad = st.Pos()
+			}
+		}
+	}
+	fname := recT.Underlying().(*types.Struct).Field(field).Name()
+	switch {
+	case n == 0:
+		r.Fail("kernpairfirst", key, w.Pos(rd.Pos()), "sfnt.Read builds no pair records (the kern conversion is gone or has moved)", nil)
+	case bad.IsValid():
+		r.Fail("kernpairfirst", key, w.Pos(bad), "the pair records built from the kern table set "+fname+": Gpos2_1.apply then continues behind the second glyph, so of two overlapping pairs (A,V) and (V,A) only the first is applied", nil)
+	default:
+		r.OK("kernpairfirst", key, w.Pos(rd.Pos()), fname+" is left nil")
+	}
 }
